@@ -911,6 +911,7 @@ const char * UMGetString(const UMessage * msg, const char * fieldName, uint32 id
 
    const uint8 * afterEndOfField = GetFieldData(ftptr)+GetFieldDataLength(ftptr);
    const uint8 * pointerToString = ((uint8 *)ftptr)+(4*sizeof(uint32));  /* skip past the field-type, field-size, number-of-items, and first-string-length fields */
+   if (pointerToString > afterEndOfField) return NULL;  /* the field is too short to hold even the first string-length word */
    while(idx > 0)
    {
       const uint32 stringSize = UMReadInt32(pointerToString-sizeof(uint32));
@@ -936,6 +937,7 @@ c_status_t UMFindData(const UMessage * msg, const char * fieldName, uint32 dataT
 
    const uint8 * afterEndOfField = GetFieldData(ftptr)+GetFieldDataLength(ftptr);
    const uint8 * pointerToBlob = ((uint8 *)ftptr)+(4*sizeof(uint32));  /* skip past the field-type, field-size, num-items, and first-blob-length fields */
+   if (pointerToBlob > afterEndOfField) return CB_ERROR;  /* the field is too short to hold even the first blob-length word */
    while(idx > 0)
    {
       const uint32 blobSize = UMReadInt32(pointerToBlob-sizeof(uint32));  /* move past the blob and the next blob's string-length-field */
@@ -958,6 +960,7 @@ c_status_t UMFindMessage(const UMessage * msg, const char * fieldName, uint32 id
    void * ftptr = GetFieldTypePointer(field);
    const uint8 * afterEndOfField = GetFieldData(ftptr)+GetFieldDataLength(ftptr);
    const uint8 * pointerToMsg = ((uint8 *)ftptr)+(3*sizeof(uint32));  /* skip past the field-type, field-size, and first-msg-length fields (there is no field-size field) */
+   if (pointerToMsg > afterEndOfField) return CB_ERROR;  /* the field is too short to hold even the first msg-length word */
    while(idx > 0)
    {
       const uint32 msgSize = UMReadInt32(pointerToMsg-sizeof(uint32));
